@@ -147,3 +147,71 @@ package onnx
 //@   tags C12,C18
 //@   ensures len(result) == len(arr) && (forall k :: 0 <= k && k < len(arr) ==> result[k] == arr[k] % 4294967296 + ite(arr[k] % 4294967296 < 0, 4294967296, 0))
 //@   loop 1 invariant forall k :: 0 <= k && k < $i ==> newArr[k] == arr[k] % 4294967296 + ite(arr[k] % 4294967296 < 0, 4294967296, 0)
+
+//@ spec narrow(v int, m int, s int) int = (v + s) % m + ite((v + s) % m < 0, m, 0) - s
+//@ spec supported_dt(d int) bool = d == 1 || d == 2 || d == 3 || d == 4 || d == 5 || d == 6 || d == 7 || d == 9 || d == 11 || d == 12 || d == 13
+//@ spec onnx_dtype(d int) dtype = ite(d == 1, Float32, ite(d == 2, Uint8, ite(d == 3, Int8, ite(d == 4, Uint16, ite(d == 5, Int16,
+//@      ite(d == 6, Int32, ite(d == 7, Int64, ite(d == 9, Bool, ite(d == 11, Float64, ite(d == 12, Uint32, Uint64))))))))))
+
+//@ func getDims
+//@   tags C12,C18
+//@   requires tensor != nil
+//@   ensures len(result) == len(tensor.Dims) && fresh(result) && (forall k :: 0 <= k && k < len(result) ==> result[k] == tensor.Dims[k])
+//@   loop 1 invariant len(dims) == len(tensor.Dims) && (forall k :: 0 <= k && k < $i ==> dims[k] == tensor.Dims[k])
+
+//@ spec typed_field_populated(tp *TensorProto) bool = len(tp.FloatData) > 0 || len(tp.Int32Data) > 0 || len(tp.Int64Data) > 0 || len(tp.DoubleData) > 0 || len(tp.Uint64Data) > 0
+
+//@ func TensorFromProto
+//@   tags C12,C18
+//@   requires tp != nil
+//@   loop 1 invariant nElements == prod(arr(dims), off(dims), $i) && (forall k :: 0 <= k && k < $i ==> dims[k] >= 1)
+//@   ensures unsupported_type_refused: !supported_dt(tp.DataType) && !typed_field_populated(tp) ==> err != nil
+//@   ensures unsupported_type_with_typed_field_refused: !supported_dt(tp.DataType) && typed_field_populated(tp) ==> err != nil
+//@   ensures result_iff_ok: (err == nil) <==> (result != nil)
+//@   ensures shape: err == nil ==> rank(result) == len(tp.Dims) && (forall k :: 0 <= k && k < len(tp.Dims) ==> dim(result, k) == tp.Dims[k])
+//@   ensures dtype: err == nil ==> dtype(result) == onnx_dtype(tp.DataType)
+//@   ensures count: err == nil ==> blen(result) == nelems(tp.Dims) && !zeroed(result)
+//@   ensures values_float: err == nil && tp.DataType == 1 ==>
+//@              ite(len(tp.FloatData) > 0,
+//@                  len(tp.FloatData) == blen(result) && (forall k :: 0 <= k && k < blen(result) ==> telem(result, "float32", k) == tp.FloatData[k]),
+//@                  len(tp.RawData) == 4 * blen(result) && (forall k :: 0 <= k && k < blen(result) ==> telem(result, "float32", k) == f32frombits(le32(tp.RawData, 4*k))))
+//@   ensures values_uint8: err == nil && tp.DataType == 2 ==>
+//@              ite(len(tp.Int32Data) > 0,
+//@                  len(tp.Int32Data) == blen(result) && (forall k :: 0 <= k && k < blen(result) ==> telem(result, "uint8", k) == narrow(tp.Int32Data[k], 256, 0)),
+//@                  len(tp.RawData) == 1 * blen(result) && (forall k :: 0 <= k && k < blen(result) ==> telem(result, "uint8", k) == tp.RawData[k]))
+//@   ensures values_int8: err == nil && tp.DataType == 3 ==>
+//@              ite(len(tp.Int32Data) > 0,
+//@                  len(tp.Int32Data) == blen(result) && (forall k :: 0 <= k && k < blen(result) ==> telem(result, "int8", k) == narrow(tp.Int32Data[k], 256, 128)),
+//@                  len(tp.RawData) == 1 * blen(result) && (forall k :: 0 <= k && k < blen(result) ==> telem(result, "int8", k) == wrap8(tp.RawData[k])))
+//@   ensures values_uint16: err == nil && tp.DataType == 4 ==>
+//@              ite(len(tp.Int32Data) > 0,
+//@                  len(tp.Int32Data) == blen(result) && (forall k :: 0 <= k && k < blen(result) ==> telem(result, "uint16", k) == narrow(tp.Int32Data[k], 65536, 0)),
+//@                  len(tp.RawData) == 2 * blen(result) && (forall k :: 0 <= k && k < blen(result) ==> telem(result, "uint16", k) == le16(tp.RawData, 2*k)))
+//@   ensures values_int16: err == nil && tp.DataType == 5 ==>
+//@              ite(len(tp.Int32Data) > 0,
+//@                  len(tp.Int32Data) == blen(result) && (forall k :: 0 <= k && k < blen(result) ==> telem(result, "int16", k) == narrow(tp.Int32Data[k], 65536, 32768)),
+//@                  len(tp.RawData) == 2 * blen(result) && (forall k :: 0 <= k && k < blen(result) ==> telem(result, "int16", k) == wrap16(le16(tp.RawData, 2*k))))
+//@   ensures values_int32: err == nil && tp.DataType == 6 ==>
+//@              ite(len(tp.Int32Data) > 0,
+//@                  len(tp.Int32Data) == blen(result) && (forall k :: 0 <= k && k < blen(result) ==> telem(result, "int32", k) == tp.Int32Data[k]),
+//@                  len(tp.RawData) == 4 * blen(result) && (forall k :: 0 <= k && k < blen(result) ==> telem(result, "int32", k) == wrap32(le32(tp.RawData, 4*k))))
+//@   ensures values_int64: err == nil && tp.DataType == 7 ==>
+//@              ite(len(tp.Int64Data) > 0,
+//@                  len(tp.Int64Data) == blen(result) && (forall k :: 0 <= k && k < blen(result) ==> telem(result, "int64", k) == tp.Int64Data[k]),
+//@                  len(tp.RawData) == 8 * blen(result) && (forall k :: 0 <= k && k < blen(result) ==> telem(result, "int64", k) == wrap64(le64(tp.RawData, 8*k))))
+//@   ensures values_double: err == nil && tp.DataType == 11 ==>
+//@              ite(len(tp.DoubleData) > 0,
+//@                  len(tp.DoubleData) == blen(result) && (forall k :: 0 <= k && k < blen(result) ==> telem(result, "float64", k) == tp.DoubleData[k]),
+//@                  len(tp.RawData) == 8 * blen(result) && (forall k :: 0 <= k && k < blen(result) ==> telem(result, "float64", k) == f64frombits(le64(tp.RawData, 8*k))))
+//@   ensures values_uint32: err == nil && tp.DataType == 12 ==>
+//@              ite(len(tp.Uint64Data) > 0,
+//@                  len(tp.Uint64Data) == blen(result) && (forall k :: 0 <= k && k < blen(result) ==> telem(result, "uint32", k) == narrow(tp.Uint64Data[k], 4294967296, 0)),
+//@                  len(tp.RawData) == 4 * blen(result) && (forall k :: 0 <= k && k < blen(result) ==> telem(result, "uint32", k) == le32(tp.RawData, 4*k)))
+//@   ensures values_uint64: err == nil && tp.DataType == 13 ==>
+//@              ite(len(tp.Uint64Data) > 0,
+//@                  len(tp.Uint64Data) == blen(result) && (forall k :: 0 <= k && k < blen(result) ==> telem(result, "uint64", k) == tp.Uint64Data[k]),
+//@                  len(tp.RawData) == 8 * blen(result) && (forall k :: 0 <= k && k < blen(result) ==> telem(result, "uint64", k) == le64(tp.RawData, 8*k)))
+//@   ensures values_bool: err == nil && tp.DataType == 9 ==>
+//@              ite(len(tp.Int32Data) > 0,
+//@                  len(tp.Int32Data) == blen(result) && (forall k :: 0 <= k && k < blen(result) ==> (telem(result, "bool", k) <==> tp.Int32Data[k] == 1)),
+//@                  len(tp.RawData) == blen(result) && (forall k :: 0 <= k && k < blen(result) ==> (telem(result, "bool", k) <==> tp.RawData[k] > 0)))
